@@ -95,6 +95,7 @@ def thorough_passes(ctx, module):
     """The thorough tier re-decides the property on everything else the build compiles and with deeper abstract domains:
       [bin-copy]  the CLI binary compiles its OWN copy of rules::/commands::/utils:: (guard/src/main.rs declares the modules again), and
                   that copy — not the library's — is what `cfn-guard` executes; rules that read `ctx.lib` are run again on it
+      [lib-copy]  the converse for rules anchored in the binary's copy (C06, C19): run again on the library's copy of commands::
       [cap=3]     loop counters of the abstract interpreter saturate one step later (3 instead of 2), so every counter-guarded
                   branch is explored for one more iteration before widening
     Obligation keys of the extra passes carry the pass name as a prefix; a known finding matches with the prefix removed."""
@@ -111,6 +112,8 @@ def thorough_passes(ctx, module):
         try:
             if view == "bin-copy":
                 sub.lib = ctx.bin
+            elif view == "lib-copy":
+                sub._bin = ctx.lib
             elif view.startswith("cap="):
                 AIM.CAP = int(view[4:])
             module.run(sub)
@@ -129,7 +132,7 @@ def thorough_passes(ctx, module):
 def run_check(prop, tier, module, level, explanation, checker_cmd):
     t0 = time.time()
     seed = int(os.environ.get("VERIF_SEED", "0") or 0)
-    evid_dir = os.path.join(VERIF, "evidence")
+    evid_dir = os.environ.get("VERIF_EVIDENCE_DIR") or os.path.join(VERIF, "evidence")   # (override: seed-matrix runs on a scratch worktree only)
     os.makedirs(os.path.join(evid_dir, "replay"), exist_ok=True)
     evid_path = os.path.join(evid_dir, prop + ".json")
     try:
